@@ -5,6 +5,7 @@ import (
 	"fmt"
 	"os"
 	"os/exec"
+	"strconv"
 	"strings"
 	"sync"
 	"time"
@@ -41,35 +42,102 @@ type caseStats struct {
 	Samples    []any            `json:"samples"`
 	Complete   bool             `json:"complete"`
 	Total      int              `json:"total"`
+	Aborted    bool             `json:"aborted,omitempty"`    // the case AbortedAt could not be completed (AbortCase); the worker exited
+	AbortedAt  int              `json:"aborted_at,omitempty"` // the parent continues the shard after this index
 }
 
-// WorkerCases evaluates the cases of one shard.
+// caseWorker is the state AbortCase needs: the statistics of the running worker (or the
+// key a replay is looking for).
+var caseWorker struct {
+	mu        sync.Mutex
+	st        *caseStats
+	name, arg string
+	index     int
+	replaying bool
+	replayKey string
+}
+
+func (st *caseStats) fold(name, arg string, i int, r CaseResult) {
+	st.Evals += r.Evals
+	st.Nontrivial += r.Nontrivial
+	for k, v := range r.Counters {
+		st.Counters[k] += v
+	}
+	for _, v := range r.Viol {
+		st.ViolCount[v.Key]++
+		if st.ViolCount[v.Key] == 1 {
+			v.Replay = map[string]any{"cases": name, "arg": arg, "index": i, "extra": v.Replay}
+			st.Viol = append(st.Viol, v)
+		}
+	}
+	if r.Sample != nil && len(st.Samples) < 2 {
+		st.Samples = append(st.Samples, r.Sample)
+	}
+}
+
+// AbortCase ends the case that is being evaluated when it cannot be completed in this
+// process, e.g. because the code under test does not return (a liveness guard of the case
+// fired on another goroutine while Run is stuck). partial holds what the case found so far
+// (including the violation that describes the runaway). The worker reports its statistics
+// and exits; RunCases starts a fresh worker that continues the shard after the aborted case
+// (the rest of the aborted case itself is not evaluated; the run is marked not exhaustive).
+// Under `replay` the violations are printed and the process exits like a finished replay.
+// AbortCase does not return.
+func AbortCase(partial CaseResult) {
+	caseWorker.mu.Lock() // never released: the process ends here
+	if caseWorker.replaying || caseWorker.st == nil {
+		hit := false
+		for _, v := range partial.Viol {
+			fmt.Printf("  violation key=%s: %s\n", v.Key, v.Msg)
+			for _, t := range v.Trace {
+				fmt.Println("     ", t)
+			}
+			if v.Key == caseWorker.replayKey {
+				hit = true
+			}
+		}
+		if hit {
+			fmt.Println("REPRODUCED")
+			os.Exit(1)
+		}
+		fmt.Println("not reproduced (case aborted)")
+		os.Exit(0)
+	}
+	st := caseWorker.st
+	st.fold(caseWorker.name, caseWorker.arg, caseWorker.index, partial)
+	st.Aborted, st.AbortedAt = true, caseWorker.index
+	b, _ := json.Marshal(st)
+	fmt.Println(string(b))
+	os.Exit(0)
+}
+
+// WorkerCases evaluates the cases of one shard (from index VERIF_CASES_FROM on, when the
+// worker continues a shard after an aborted case).
 func WorkerCases(name, arg string, shard, of int, deadline time.Time) {
 	cs := caseSets[name](arg)
+	from, _ := strconv.Atoi(os.Getenv("VERIF_CASES_FROM"))
 	st := caseStats{ViolCount: map[string]int{}, Counters: map[string]int64{}, Complete: true, Total: cs.Total}
+	caseWorker.mu.Lock()
+	caseWorker.st, caseWorker.name, caseWorker.arg = &st, name, arg
+	caseWorker.mu.Unlock()
 	for i := shard; i < cs.Total; i += of {
+		if i < from {
+			continue
+		}
 		if i%16 == shard%16 && time.Now().After(deadline) {
 			st.Complete = false
 			break
 		}
+		caseWorker.mu.Lock()
+		caseWorker.index = i
+		caseWorker.mu.Unlock()
 		r := cs.Run(i)
+		caseWorker.mu.Lock()
 		st.Done++
-		st.Evals += r.Evals
-		st.Nontrivial += r.Nontrivial
-		for k, v := range r.Counters {
-			st.Counters[k] += v
-		}
-		for _, v := range r.Viol {
-			st.ViolCount[v.Key]++
-			if st.ViolCount[v.Key] == 1 {
-				v.Replay = map[string]any{"cases": name, "arg": arg, "index": i, "extra": v.Replay}
-				st.Viol = append(st.Viol, v)
-			}
-		}
-		if r.Sample != nil && len(st.Samples) < 2 {
-			st.Samples = append(st.Samples, r.Sample)
-		}
+		st.fold(name, arg, i, r)
+		caseWorker.mu.Unlock()
 	}
+	caseWorker.mu.Lock()
 	b, _ := json.Marshal(st)
 	fmt.Println(string(b))
 }
@@ -88,44 +156,62 @@ func RunCases(c *Ctx, name, arg string, budget time.Duration) (complete bool) {
 	var mu sync.Mutex
 	var wg sync.WaitGroup
 	complete = true
-	var done, total int64
+	var done, total, aborted int64
 	for i := 0; i < n; i++ {
 		wg.Add(1)
 		go func(i int) {
 			defer wg.Done()
-			cmd := exec.Command(exe, "worker-cases", name, arg, fmt.Sprint(i), fmt.Sprint(n), fmt.Sprint(deadline.UnixMilli()))
-			cmd.Env = append(os.Environ(), "GOMAXPROCS=2")
-			cmd.Stderr = os.Stderr
-			out, err := cmd.Output()
-			var st caseStats
-			if err == nil {
-				err = json.Unmarshal(lastLine(out), &st)
-			}
-			mu.Lock()
-			defer mu.Unlock()
-			if err != nil {
-				complete = false
-				c.Rep.Add(Violation{Key: "internal:worker-failed", Msg: fmt.Sprintf("cases worker %d of %s/%s failed: %v\n%s", i, name, arg, err, tail(out))})
-				return
-			}
-			done += st.Done
-			total = int64(st.Total)
-			c.Rep.Count("evaluations", st.Evals)
-			c.Rep.Count("distinct_nontrivial", st.Nontrivial)
-			for k, v := range st.Counters {
-				c.Rep.Count(k, v)
-			}
-			for _, v := range st.Viol {
-				c.Rep.Add(v)
-				c.Rep.mu.Lock()
-				c.Rep.ViolCount[v.Key] += st.ViolCount[v.Key] - 1
-				c.Rep.mu.Unlock()
-			}
-			for _, s := range st.Samples {
-				c.Rep.Sample(s)
-			}
-			if !st.Complete {
-				complete = false
+			from, aborts := 0, 0
+			for {
+				cmd := exec.Command(exe, "worker-cases", name, arg, fmt.Sprint(i), fmt.Sprint(n), fmt.Sprint(deadline.UnixMilli()))
+				cmd.Env = append(os.Environ(), "GOMAXPROCS=2", "VERIF_CASES_FROM="+fmt.Sprint(from))
+				cmd.Stderr = os.Stderr
+				out, err := cmd.Output()
+				var st caseStats
+				if err == nil {
+					err = json.Unmarshal(lastLine(out), &st)
+				}
+				mu.Lock()
+				if err != nil {
+					complete = false
+					c.Rep.Add(Violation{Key: "internal:worker-failed", Msg: fmt.Sprintf("cases worker %d of %s/%s failed: %v\n%s", i, name, arg, err, tail(out))})
+					mu.Unlock()
+					return
+				}
+				done += st.Done
+				total = int64(st.Total)
+				c.Rep.Count("evaluations", st.Evals)
+				c.Rep.Count("distinct_nontrivial", st.Nontrivial)
+				for k, v := range st.Counters {
+					c.Rep.Count(k, v)
+				}
+				for _, v := range st.Viol {
+					c.Rep.Add(v)
+					c.Rep.mu.Lock()
+					c.Rep.ViolCount[v.Key] += st.ViolCount[v.Key] - 1
+					c.Rep.mu.Unlock()
+				}
+				for _, s := range st.Samples {
+					c.Rep.Sample(s)
+				}
+				if !st.Complete {
+					complete = false
+				}
+				if !st.Aborted {
+					mu.Unlock()
+					return
+				}
+				// the worker gave up on case AbortedAt (AbortCase): continue the shard behind it
+				aborted++
+				aborts++
+				from = st.AbortedAt + 1
+				mu.Unlock()
+				if aborts >= 64 {
+					mu.Lock()
+					complete = false
+					mu.Unlock()
+					return
+				}
 			}
 		}(i)
 	}
@@ -134,6 +220,9 @@ func RunCases(c *Ctx, name, arg string, budget time.Duration) (complete bool) {
 	sc, _ := c.Rep.Cov["case_sets"].([]any)
 	c.Rep.Cov["case_sets"] = append(sc, map[string]any{"name": name, "arg": arg, "cases_total": total, "cases_done": done, "complete": complete})
 	c.Rep.mu.Unlock()
+	if aborted > 0 {
+		c.Rep.Capped(fmt.Sprintf("%s/%s: %d cases were aborted by their guard and not evaluated to the end", name, arg, aborted))
+	}
 	if !complete {
 		c.Rep.Capped(fmt.Sprintf("%s/%s: %d of %d cases evaluated (deadline)", name, arg, done, total))
 	}
@@ -146,6 +235,9 @@ func replayCase(name, arg string, index int, key string) int {
 		fmt.Println("unknown case set", name)
 		return 2
 	}
+	caseWorker.mu.Lock()
+	caseWorker.replaying, caseWorker.replayKey = true, key
+	caseWorker.mu.Unlock()
 	r := mk(arg).Run(index)
 	hit := false
 	for _, v := range r.Viol {
